@@ -8,7 +8,7 @@ import mpmath
 from common import Str, sx
 
 ID = 'C11'
-LEAN_MODULES = ['Cellml.Props.C11', 'Cellml.Tie.Printer', 'Cellml.Tie.PrinterAdd', 'Cellml.Tie.PrinterMul', 'Cellml.Tie.PrinterPr']
+LEAN_MODULES = ['Cellml.Props.C11', 'Cellml.Tie.Printer', 'Cellml.Tie.PrinterAdd', 'Cellml.Tie.PrinterMul', 'Cellml.Tie.PrinterPr', 'Cellml.Tie.PrinterMul2', 'Cellml.Tie.PrinterClosed', 'Cellml.Tie.PrinterSign', 'Cellml.Tie.PrinterReject', 'Cellml.Props.C11Gen']
 N = {'quick': 3000, 'thorough': 100000}
 RULE = ('cases are construction recipes for SymPy trees (evaluate=True / evaluate=False per node). Fixed family, 56 693 '
         'cases: every (parent, child, operand position) over sums, differences, products, quotients, powers (integer, '
